@@ -312,14 +312,17 @@ func (r *beRun) cacheConfig() cache.Config {
 
 type beLogger struct{ r *beRun }
 
-func (l beLogger) rec(level, msg string) {
+func (l beLogger) rec(level, msg string, kv []interface{}) {
 	zs.Yield("log." + level)
+	renderLogArgs(kv)
 	l.r.logs = append(l.r.logs, logRec{seq: l.r.e.s.NextSeq(), level: level, msg: msg})
 }
-func (l beLogger) Error(_ context.Context, msg string, _ ...interface{})     { l.rec("error", msg) }
-func (l beLogger) Debug(_ context.Context, msg string, _ ...interface{})     { l.rec("debug", msg) }
-func (l beLogger) Warn(_ context.Context, msg string, _ ...interface{})      { l.rec("warn", msg) }
-func (l beLogger) Important(_ context.Context, msg string, _ ...interface{}) { l.rec("important", msg) }
+func (l beLogger) Error(_ context.Context, msg string, kv ...interface{}) { l.rec("error", msg, kv) }
+func (l beLogger) Debug(_ context.Context, msg string, kv ...interface{}) { l.rec("debug", msg, kv) }
+func (l beLogger) Warn(_ context.Context, msg string, kv ...interface{})  { l.rec("warn", msg, kv) }
+func (l beLogger) Important(_ context.Context, msg string, kv ...interface{}) {
+	l.rec("important", msg, kv)
+}
 
 func (r *beRun) construct() {
 	before := len(r.e.s.Tasks())
